@@ -1390,7 +1390,7 @@ def bandlimited_click(fs, flb, fub, window=0.1, level=1, level_unit='rms',
     if level_unit == 'peak':
         # Convert mask to 0 and 1.
         waveform_norm = _click_waveform(m.astype('float'), freq, n)
-        papr = waveform_norm.ptp() / util.rms(waveform_norm)
+        papr = np.ptp(waveform_norm) / util.rms(waveform_norm)
         waveform /= papr
         log.info('Calculated crest factor for bandlimited click is %.1f.', util.db(papr))
     elif level_unit == 'rms':
